@@ -121,7 +121,7 @@ def run_case(case):
         """Argument tuple for the real API; with case["py"] top-level integer arguments are passed as
         Python ints (an or_else flag as a Python bool), as callers commonly do."""
         aj = gfi.to_jax(args, ["tup", atys])
-        if case.get("py") and stored is None:
+        if case.get("py") and stored is None and (not case.get("_has_mask") or case.get("py_mask")):
             # (a concrete mask flag is normalised away by Mask itself — C19's subject, and a known finding of
             #  C01 replayed with "py_mask" — so generated histories keep mask flags as arrays)
             aj = tuple((bool(int(a)) if (k == 0 and prog[0] == "orelse") else int(a))
